@@ -271,7 +271,7 @@ ASSUME_MARMOT = [
 MC_CORE = {"quick": [("MCMarmot.tla", "MC_core_quick.cfg", 600),
                      ("MCMarmot.tla", "MC_full_sim.cfg", 300, "-simulate num=80 -depth 50")],
            "thorough": [("MCMarmot.tla", "MC_core_quick.cfg", 600),
-                        ("MCMarmot.tla", "MC_full_sim.cfg", 1500, "-simulate num=20000 -depth 60")]}
+                        ("MCMarmot.tla", "MC_full_sim.cfg", 1500, "-simulate num=1500 -depth 60")]}
 
 
 # + the invitation / membership instance (add, remove, welcomes under two wrapper ids, accept / decline / re-accept, key-package
